@@ -201,6 +201,7 @@ func (w *hintFileWriter) close() error {
 	w.fd.Write(buf[:])
 	w.fd.Close()
 	tmp := w.path + ".tmp"
+	verifPoint("fs.rename", tmp, w.path)
 	err := os.Rename(tmp, w.path)
 	if err != nil {
 		return err
